@@ -398,7 +398,13 @@ func c16Snap(e error, defs []errdef.Factory, own bool) string {
 			fmt.Fprintf(&b, ",%q", c.Error())
 		}
 		if hf, ok := ee.Stack().HeadFrame(); ok {
-			fmt.Fprintf(&b, "|head=%s %s:%d", hf.Func, filepath.Base(hf.File), hf.Line)
+			// a StackSkip option moves the head out of the operation's own closure, into
+			// frames that belong to whoever runs the operation
+			if own || strings.Contains(hf.Func, "c16Ops.func") {
+				fmt.Fprintf(&b, "|head=%s %s:%d", hf.Func, filepath.Base(hf.File), hf.Line)
+			} else {
+				b.WriteString("|head=caller's")
+			}
 		}
 		fmt.Fprintf(&b, "|stacklen>0=%v", ee.Stack().Len() > 0)
 	}
@@ -664,6 +670,9 @@ func c16Ops(w *world, docs map[int][]byte) []c16Op {
 				return "not an errdef.Error"
 			}
 			for f, src := range e.Stack().FramesAndSource() {
+				if !strings.Contains(f.Func, "c16Ops.func") {
+					return "first frame is the caller's (StackSkip)" // still read, not compared
+				}
 				return fmt.Sprintf("%s:%d\n%s", filepath.Base(f.File), f.Line, src)
 			}
 			return "no frames"
